@@ -203,12 +203,126 @@ def r02_6(run, model):
     run.ob("R02.6", "Go import binding is the last path segment", sa == "last", site(GOC, a.node["sp"]), f"qualifier = {sa} segment (Go binds an import to its last path element)")
 
 
+# Go name slots whose value is legitimately not produced by go_ident / a *_name constructor (function, struct, field -> reason)
+NAME_LEDGER = {
+    ("compile_cexpr", "Var", "name"): "qualified name of an extern Go function: `<package alias>.<go_name>`, where go_name is the Go identifier the user wrote in the extern declaration",
+    ("go_file", "Field", "name"): "field names taken out of the GoType::TStruct built by tuple_to_go_struct_type (compiler-chosen `_N`)",
+    ("go_file", "Struct", "name"): "struct name taken out of the GoType::TStruct built by tuple_to_go_struct_type (go_type_name_for)",
+}
+
+
+def sanctioned_name_fns(model):
+    go_files = [r for r in model.src_files() if r.startswith("crates/compiler/src/go/") or r.endswith("/names.rs")]
+    fns = {}
+    for rel in go_files:
+        for fn in model.fns(rel):
+            if fn.body is not None:
+                fns.setdefault(fn.name, []).append(fn)
+    san = {"go_ident"}
+    changed = True
+    while changed:
+        changed = False
+        for name, lst in fns.items():
+            if name in san:
+                continue
+            for fn in lst:
+                if (fn.node.get("ret") or "").replace(" ", "") in ("String", "&str", "Option<String>") and any(S.callee_name(c) in san for c in S.calls(fn.body)):
+                    san.add(name)
+                    changed = True
+    return san
+
+
+def r02_8(run, model):
+    run.rule("R02.8", "every Go name slot (`name` / `field` of a goast node built in go::compile) is filled from a literal, a compiler-chosen index, "
+                      "go_ident(..) or a name constructor that applies go_ident - followed by def-use through locals; a user-chosen name "
+                      "that reaches a slot unmangled is emitted verbatim (keywords, separators) and disagrees with its mangled declaration")
+    san = sanctioned_name_fns(model)
+    run.anchor("name constructors that apply go_ident (derived)", sorted(san))
+    if len(san) < 6:
+        raise AnalysisIncomplete("name constructors applying go_ident not found")
+    IDX = r"i|idx|index|field_index|n"
+
+    def safe(fn, e, depth=0, seen=None):
+        seen = seen if seen is not None else set()
+        if e["k"] in ("Call", "MethodCall") and (S.callee_name(e) in san or any(S.callee_name(c) in san for c in S.calls(e))):
+            return True, "name constructor"
+        if e["k"] == "Lit":
+            return True, "literal"
+        if e["k"] == "Macro" and e["name"] == "format":
+            args = e.get("args") or []
+            if args and args[0]["k"] == "Lit":
+                bad = []
+                for a in args[1:]:
+                    ok, why = safe(fn, a, depth + 1, seen)
+                    if not ok:
+                        bad.append(why)
+                return (not bad), ("format of safe parts" if not bad else "format! with " + bad[0])
+        if e["k"] == "MethodCall" and e["method"] in ("clone", "to_string", "to_owned", "as_str", "into"):
+            return safe(fn, e["recv"], depth, seen)
+        if e["k"] == "Ref":
+            return safe(fn, e["expr"], depth, seen)
+        if e["k"] == "If" and e.get("else") is not None:
+            for br in (e["then"], e["else"]):
+                ok, why = safe(fn, br, depth + 1, seen)
+                if not ok:
+                    return False, why
+            return True, "both branches safe"
+        if e["k"] == "Block" and e["stmts"] and e["stmts"][-1]["k"] == "ExprStmt" and not e["stmts"][-1]["semi"]:
+            return safe(fn, e["stmts"][-1]["expr"], depth + 1, seen)
+        if e["k"] == "Match":
+            for arm in e["arms"]:
+                ok, why = safe(fn, arm["body"], depth + 1, seen)
+                if not ok:
+                    return False, why
+            return True, "all arms safe"
+        if e["k"] == "Path" and len(e["segs"]) == 1:
+            v = e["segs"][0]
+            if re.fullmatch(IDX, v):
+                return True, "index"
+            if (v in seen) or depth > 4:
+                return False, f"`{v}` (cyclic definition)"
+            seen.add(v)
+            defs = [l for l in S.find(fn.body, "Local") if v in S.pat_bindings(l["pat"]) and l.get("init") is not None]
+            if defs:
+                for d in defs:
+                    ok, why = safe(fn, d["init"], depth + 1, seen)
+                    if not ok:
+                        return False, f"`{v}` <- {why}"
+                return True, "local built safely"
+            return False, f"`{v}` (a binding of unknown provenance)"
+        return False, "`" + S.norm_ws(run.facts.text(GOC, e["sp"]))[:50] + "`"
+
+    n = 0
+    for fn in model.fns(GOC):
+        if fn.body is None:
+            continue
+        for st in S.find(fn.body, "Struct"):
+            if not ("goast" in st["segs"] or (len(st["segs"]) >= 2 and st["segs"][-2] in ("Expr", "Stmt"))):
+                continue
+            for fl in st["fields"]:
+                if fl["name"] not in ("name", "field"):
+                    continue
+                n += 1
+                ok, why = safe(fn, fl["expr"])
+                led = NAME_LEDGER.get((fn.name, st["segs"][-1], fl["name"]))
+                if ok:
+                    continue
+                run.ob("R02.8", f"{fn.name}|{st['segs'][-1]}.{fl['name']} <- {why}", led is not None, site(GOC, fl["sp"]),
+                       f"{'::'.join(st['segs'][-2:])}.{fl['name']} is filled from {why}" + (f"; ledger: {led}" if led else ""),
+                       witness="trait Interval { fn map(..) } used through dyn: the call site selects `.vtable.map(` while the vtable struct declares `_goml_map` (and `map` is a Go keyword)")
+    run.ob("R02.8", "go::compile|name slots examined", True, None, f"{n} name/field slots of goast nodes checked for provenance")
+    run.floor("Go name slots", n, 40)
+
+
 def run(run, model):
     run.try_rule(r02_1, model)
     run.try_rule(r02_2, model)
     run.try_rule(r02_3, model)
     run.try_rule(r02_5, model)
     run.try_rule(r02_6, model)
+    run.try_rule(r02_8, model)
+    from rules import c08
+    run.try_rule(c08.r08_1, model)
     run.rule("R02.7", "Go type declarations are collected through every type former: the runtime-type collector is a structural traversal of Ty "
                       "that handles every child-carrying former (shared audit with C07 R07.2)")
     cv = T.child_variants(model)
